@@ -53,6 +53,10 @@ class EscapeOfHEProducts(ExactSolver):
         super(EscapeOfHEProducts, self).__init__(**kwargs)
 
         # check for illegal input values
+        if self.geometry != 1:
+            raise ValueError('geometry must be 1 (axial)')
+        if self.gamma != 3:
+            raise ValueError('The exact solution requires gamma = 3')
 
         if self.D <= 0:
             raise ValueError('Detonation velocity must be > 0')
